@@ -24,6 +24,11 @@ CLAIMS = {
             "Decides that nothing but DeepCopy results enters or leaves the store and the read cache, that every in-place write of the "
             "copy-on-write metadata containers targets storage created in the same call, that the module's DeepCopy implementations copy "
             "their mutable parts, and that raw maps are never written. DeepCopy of user spec types is the user's obligation.", "§3 C19"),
+    "C02": ("lockset + guard-normal-form (linear atoms) path-cut on the ring-buffer reader/writer code",
+            "Decides the ring-buffer protocol: publish shape, first-lap-only growth, atomic snapshot+position, an overrun guard with normal "
+            "form writePos-pos<=capacity in front of every slot read in the same critical section, terminal Errored on overrun, "
+            "reader/writer index agreement, wait-loop discipline, ID filter and event contents. Exactly-once in-order DELIVERY for all "
+            "consumer speeds and 'replay == state' are not decided.", "§3 C02"),
     "C03": ("path-cut + lockset on the store's Destroy/Watch, decision-table cuts on the blocking helpers, value provenance of the ready flag",
             "Decides that removal is gated by an empty finalizer set inside the collection's critical section, that a plain watch captures "
             "and sends the current state atomically with its start position (the mechanism behind 'no missed wake-up'), the event decision "
